@@ -30,6 +30,8 @@ def runs(p):
         q['desc'] = [['roll', 3, 2, [r]]]
     elif ctx == 'in_split':
         q['desc'] = [['split', 'div3', [r]]]
+    elif ctx == 'after':        # a completion-triggered consumer after roll on the same key: partial windows must be flushed before the key's completion is forwarded
+        q['desc'] = [r, ['to_list_sum']]
     elif ctx == 'roll_in':      # roll whose windows are rolled again
         q['desc'] = [['roll', w, s, [['roll', 2, 1, [['to_list_sum']]]]]]
     q['mode'] = 'per_t' if ctx in ('stream', 'roll_in', 'in_roll') else 'exact'
@@ -153,7 +155,7 @@ def obligations(tier, seed):
     for (w, s) in ((2, 1), (3, 2), (2, 3), (3, 1)) if q else ((2, 1), (3, 2), (2, 3), (3, 1), (4, 3), (5, 2), (1, 1), (2, 2)):
         for n in ((3, 4) if q else (3, 4, 5, 6)):
             obs.append(Ob(PROP, 'runs', dict(ctx='group', w=w, s=s, n=n), budget=120 if q else 600, bound=dict(w=w, s=s, items=n, groups=2)))
-        for ctx in ('in_roll', 'in_split', 'roll_in', 'stream'):
+        for ctx in ('in_roll', 'in_split', 'roll_in', 'stream', 'after'):
             for n in (((3, 4) if ctx == 'in_split' else (4, 5)) if q else (4, 5, 6)):
                 obs.append(Ob(PROP, 'runs', dict(ctx=ctx, w=w, s=s, n=n), budget=120 if q else 600, bound=dict(w=w, s=s, items=n, ctx=ctx)))
     gi = 6 if q else 12
